@@ -188,7 +188,7 @@ func doSprintf(fr *frame, format string, args []value) value {
 		verb := format[q]
 		p = q + 1
 		if verb == '%' {
-			out = append(out, '%')
+			out = append(out, uint8('%'))
 			continue
 		}
 		nstar := strings.Count(spec, "*")
@@ -271,8 +271,8 @@ func doSprintf(fr *frame, format string, args []value) value {
 					continue
 				}
 			case []value:
-				// []byte with symbolic content
-				if verb == 's' || verb == 'v' {
+				// []byte with symbolic content (other slices are formatted natively below)
+				if (verb == 's' || verb == 'v') && isByteSlice(x) {
 					out = append(out, x...)
 					continue
 				}
@@ -432,4 +432,20 @@ func fmtErrorf(fr *frame, a []value) (value, bool) {
 		}
 	}
 	return fr.i.callNamed("errors", "New", msg), true
+}
+
+// isByteSlice: every element is a concrete or symbolic uint8.
+func isByteSlice(x []value) bool {
+	for _, e := range x {
+		switch b := e.(type) {
+		case uint8:
+		case sym:
+			if b.k != types.Uint8 {
+				return false
+			}
+		default:
+			return false
+		}
+	}
+	return true
 }
